@@ -225,7 +225,21 @@ func (in *Interp) conv(dst, src types.Type, x Value) Value {
 		}
 	case *types.Basic:
 		if us.Kind() == types.UnsafePointer {
-			if _, ok := ud.(*types.Pointer); ok {
+			if pt, ok := ud.(*types.Pointer); ok {
+				// (*[N]T)(unsafe.Pointer(&s[j])): view the backing cells from s[j] on as an array
+				if at, isArr := pt.Elem().Underlying().(*types.Array); isArr {
+					if p, ok := x.(Ptr); ok && p.cell != nil && p.arr != nil {
+						if _, already := (*p.cell).(Array); !already {
+							n := int(at.Len())
+							if n > len(p.arr) {
+								n = len(p.arr)
+							}
+							cell := new(Value)
+							*cell = Array(p.arr[:n:n])
+							return Ptr{cell: cell}
+						}
+					}
+				}
 				return x
 			}
 			if b, ok := ud.(*types.Basic); ok && b.Kind() == types.UnsafePointer {
